@@ -12,6 +12,7 @@ import (
 	"net/url"
 	"os"
 	"path/filepath"
+	"sync"
 	"sync/atomic"
 	"time"
 
@@ -45,6 +46,7 @@ type Carrier struct {
 	URL       *url.URL
 	Transport *http.Transport
 	ReqCount  *atomic.Int64 // HTTP requests that reached the server
+	RemoteOf  *sync.Map     // run id -> remote address of the connection its request arrived on
 	Inner     *inprocgrpc.Channel
 }
 
@@ -156,8 +158,12 @@ func httpCarrier(name string, svc *Service, h http.Handler, base string, useTLS,
 	var ts *httptest.Server
 	tr := newHTTPTransport()
 	reqCount := new(atomic.Int64)
+	remoteOf := new(sync.Map)
 	ts = httptest.NewUnstartedServer(http.HandlerFunc(func(w http.ResponseWriter, r *http.Request) {
 		reqCount.Add(1)
+		if id := r.Header.Get("X-Verif-Run"); id != "" {
+			remoteOf.Store(id, r.RemoteAddr)
+		}
 		h.ServeHTTP(w, r)
 	}))
 	ts.Config.ErrorLog = log.New(io.Discard, "", 0)
@@ -213,7 +219,7 @@ func httpCarrier(name string, svc *Service, h http.Handler, base string, useTLS,
 		tr.TLSClientConfig = &tls.Config{}
 		name += "-tlsconfigured"
 	}
-	c := &Carrier{Name: name, HTTP: true, Svc: svc, URL: u, Transport: tr, ReqCount: reqCount}
+	c := &Carrier{Name: name, HTTP: true, Svc: svc, URL: u, Transport: tr, ReqCount: reqCount, RemoteOf: remoteOf}
 	c.CC = &httpgrpc.Channel{Transport: tr, BaseURL: u}
 	c.close = append(c.close, func() {
 		tr.CloseIdleConnections()
